@@ -107,10 +107,19 @@ type Node struct {
 	Mem   *spi.Membership
 	// main-loop mimic
 	maxSync    *uint64
+	// the worker's two one-slot inboxes (sync, election): filled by the main-loop half of a step, emptied by the worker half
+	pendSync   *pendingSync
+	pendTrig   *interfaces.ElectionTrigger
+	pendTrigHV [2]uint64
 	FailCommit func(h uint64) bool // commit callback failure injection
 	// observations
 	Commits map[uint64]*CommitRec
 	Panics  int
+}
+
+type pendingSync struct {
+	blk   *spi.Blk
+	proof []byte
 }
 
 type CommitRec struct {
@@ -143,6 +152,7 @@ type World struct {
 	comms  map[uint64]*ref.Committee
 	Canon  map[uint64]*CommitRec // first commit seen per height (for sync / prev proofs)
 	KeepTrace bool
+	SplitHandoff bool // main-loop and worker halves of syncs / elections may be separated by other steps
 }
 
 func (w *World) Comm(h uint64) *ref.Committee {
@@ -261,10 +271,8 @@ func (w *World) Start() {
 func (w *World) SyncNode(n *Node, b *spi.Blk, proof []byte) {
 	n.gc()
 	var bh uint64
-	var blk interfaces.Block
 	if b != nil {
 		bh = b.H
-		blk = b
 	}
 	if n.maxSync != nil && *n.maxSync >= bh {
 		return
@@ -276,11 +284,61 @@ func (w *World) SyncNode(n *Node, b *spi.Blk, proof []byte) {
 	}
 	x := bh
 	n.maxSync = &x
+	// sendUpdateMessageNonBlocking: a full slot is emptied first, the newest sync wins
+	n.pendSync = &pendingSync{b, proof}
+	w.trace("sync-main", n.Id, "", fmt.Sprintf("h=%d", bh))
+	if w.SplitHandoff && w.Rng.Intn(3) == 0 {
+		return // the worker half happens at some later step
+	}
+	w.WorkerTakeSync(n)
+}
+
+// WorkerTakeSync is the worker half of a node sync: the worker's select picked the update-state inbox.
+func (w *World) WorkerTakeSync(n *Node) {
+	ps := n.pendSync
+	if ps == nil {
+		return
+	}
+	n.pendSync = nil
+	var blk interfaces.Block
+	bh := uint64(0)
+	if ps.blk != nil {
+		blk, bh = ps.blk, ps.blk.H
+	}
 	pre := w.Mon.PreStep(n)
 	mark := w.Log.Len()
 	w.trace("sync", n.Id, "", fmt.Sprintf("h=%d", bh))
-	w.guard(n, "sync", func() { n.W.VerifUpdateState(blk, proof) })
+	w.guard(n, "sync", func() { n.W.VerifUpdateState(blk, ps.proof) })
 	w.Mon.PostSync(n, pre, bh, w.Log.Ev[mark:])
+}
+
+// WorkerTakeTrigger is the worker half of an election: the worker's select picked the election inbox.
+func (w *World) WorkerTakeTrigger(n *Node) {
+	trig := n.pendTrig
+	if trig == nil {
+		return
+	}
+	n.pendTrig = nil
+	h, v := n.pendTrigHV[0], n.pendTrigHV[1]
+	pre := w.Mon.PreStep(n)
+	mark := w.Log.Len()
+	w.trace("timeout", n.Id, "", fmt.Sprintf("h=%d v=%d", h, v))
+	w.guard(n, "election", func() { n.W.VerifElection(trig) })
+	w.Mon.PostTimeout(n, pre, h, v, w.Log.Ev[mark:])
+}
+
+// DrainPending runs every pending worker half (in a PRNG-chosen order per node).
+func (w *World) DrainPending() {
+	for _, id := range w.Order {
+		n := w.Nodes[id]
+		if w.Rng.Intn(2) == 0 {
+			w.WorkerTakeSync(n)
+			w.WorkerTakeTrigger(n)
+		} else {
+			w.WorkerTakeTrigger(n)
+			w.WorkerTakeSync(n)
+		}
+	}
 }
 
 // Timeout fires the node's armed election timer (main-loop mimic + worker arm).
@@ -297,11 +355,13 @@ func (w *World) Timeout(n *Node) bool {
 		return false
 	}
 	trig := &interfaces.ElectionTrigger{Hv: state.NewHeightView(primitives.BlockHeight(h), primitives.View(v)), MoveToNextLeader: func() { cb(primitives.BlockHeight(h), primitives.View(v), nil) }}
-	pre := w.Mon.PreStep(n)
-	mark := w.Log.Len()
-	w.trace("timeout", n.Id, "", fmt.Sprintf("h=%d v=%d", h, v))
-	w.guard(n, "election", func() { n.W.VerifElection(trig) })
-	w.Mon.PostTimeout(n, pre, h, v, w.Log.Ev[mark:])
+	// sendElectionMessageNonBlocking: a full slot is emptied first, the newest trigger wins
+	n.pendTrig, n.pendTrigHV = trig, [2]uint64{h, v}
+	if w.SplitHandoff && w.Rng.Intn(3) == 0 {
+		w.trace("timeout-main", n.Id, "", fmt.Sprintf("h=%d v=%d", h, v))
+		return true // the worker half happens at some later step
+	}
+	w.WorkerTakeTrigger(n)
 	return true
 }
 
